@@ -109,7 +109,7 @@ mod vk_cloned {
         assert!(d == copy, "[C13 source-untouched] the source elements are neither modified nor moved");
     }
 
-    // @harness name=cloned_iter_pulls props=C13 tier=thorough kind=bounded bound="wrapped iterator of references of length <= 3; up to 2 earlier single pulls; chunk size <= 2 (real atomics, sequential)"
+    // @harness name=cloned_iter_pulls props=C13 kind=bounded bound="wrapped iterator of references of length 3; up to 1 earlier single pull, optional skip_to_end, then one single / chunk(2) / buffered(2) pull (real atomics, sequential)"
     #[kani::proof]
     #[kani::unwind(6)]
     fn cloned_iter_pulls() {
@@ -117,12 +117,14 @@ mod vk_cloned {
         let copy = d;
         let x = ConIterOfIter::new(d.iter());
         let y = ConIterOfIter::new(d.iter()).cloned();
-        let pre: u8 = kani::any();
-        kani::assume(pre <= 2);
-        let mut i = 0;
-        while i < pre { let _ = x.next(); let _ = y.next(); i += 1; }
+        let pre: bool = kani::any();
+        if pre { let _ = x.next(); let _ = y.next(); }
+        let skip: bool = kani::any();
+        if skip { x.skip_to_end(); y.skip_to_end(); }
         let op: u8 = kani::any();
         kani::assume(op < 3);
+        kani::cover!(skip && op == 2, "buffered pull after skip_to_end");
+        kani::cover!(!skip && op == 2 && pre, "buffered pull in the middle");
         if op == 0 {
             match (x.next_id_and_value(), y.next_id_and_value()) {
                 (Some(a), Some(b)) => { assert!(a.idx == b.idx, "[C13 same-idx] same index as the underlying iterator"); assert!(*a.value == b.value, "[C13 clone-of] the value is a clone of the element the underlying iterator delivers"); }
@@ -138,13 +140,21 @@ mod vk_cloned {
                 }
                 (None, None) => {}
                 _ => assert!(false, "[C13 same-end] the adaptor reports the end exactly when the underlying iterator does"),
-            }
+            };
         } else {
-            x.skip_to_end();
-            y.skip_to_end();
-            assert!(x.next().is_none() && y.next().is_none() && y.has_more() == x.has_more(), "[C13 same-skip] skip_to_end acts on the adaptor as on the underlying iterator");
+            let mut bx = x.buffered_iter(2);
+            let mut by = y.buffered_iter(2);
+            match (bx.next(), by.next()) {
+                (Some(mut a), Some(mut b)) => {
+                    assert!(a.begin_idx == b.begin_idx && a.values.len() == b.values.len(), "[C13 same-begin] same chunk begin index and boundaries as the underlying iterator");
+                    let mut k = 0;
+                    while k < 3 { match (a.values.next(), b.values.next()) { (Some(p), Some(q)) => assert!(*p == q, "[C13 clone-of] chunk elements are clones of the underlying chunk's elements"), (None, None) => {}, _ => assert!(false, "[C13 same-chunk-len] same number of chunk elements") } k += 1; }
+                }
+                (None, None) => {}
+                _ => assert!(false, "[C13 same-end] the adaptor reports the end exactly when the underlying iterator does"),
+            };
         }
-        assert!(x.try_get_len() == y.try_get_len(), "[C13 same-len] same remaining length as the underlying iterator");
+        assert!(x.try_get_len() == y.try_get_len() && x.has_more() == y.has_more(), "[C13 same-len] same remaining length as the underlying iterator");
         assert!(d == copy, "[C13 source-untouched] the source elements are neither modified nor moved");
     }
 }
